@@ -908,6 +908,21 @@ def run(ctx):
                      'function g(x) { try { y(x); } catch (e) { return e; } }'):
             ctx.bump('reused-printer')
             chk.process(text, [cfg], 'reused-printer', do_tie=False, do_agree=False)
+        # ... and after a call of the SAME printer that died half way, inside a function body (a literal nested so deeply that
+        # the walk exceeds Python's recursion limit - on the unchanged code as well): nothing of the dead call may survive
+        from calmjs.parse.parsers.es5 import parse as _parse
+        deep = 'function dead(a) { var inner = ' + '[' * 600 + '1' + ']' * 600 + '; return inner; }'
+        try:
+            ''.join(f.text for f in cfg.make()(_parse(deep)))
+            ctx.bump('reused-printer:deep call completed')
+        except RecursionError:
+            ctx.bump('reused-printer:call died (RecursionError)')
+        except Exception as e:
+            ctx.bump('reused-printer:call died (%s)' % type(e).__name__)
+        for text in ('var total = 0, list = []; function add(x) { total += x; return function () { return total + list.length; }; } add(1)();',
+                     'function g(x) { try { y(x); } catch (e) { return e; } } var top = g;'):
+            ctx.bump('reused-printer-after-dead-call')
+            chk.process(text, [cfg], 'reused-printer-after-dead-call', do_tie=False, do_agree=False)
     chk.gen_tie(ctx.sub_rng('gen'), ctx.n(60, 600))
     # known-finding witnesses
     for e in ctx.known_findings:
